@@ -591,6 +591,15 @@ class Analyzer:
         ty = self.place_ty(place)
         if ty is not None and INTERIOR_MUT.search(ty):
             return V(ty=ty)
+        m = re.match(r"^const:(.+)\[_\]$", key)
+        if m:
+            # element of a literal const table: any index reads a value within the table's range
+            rng = (getattr(self.prog, "const_ranges", None) or {}).get(m.group(1))
+            sid = "tbl:%s" % hint
+            nv = self.ensure_sym(st, self.top_for(ty, sid), sid)
+            if rng is not None and nv.sym is not None:
+                st.refine_sym(nv.sym[0], rng)
+            return nv
         # untracked: a stable symbol per key is sound only for keys that are killed on writes; we register it
         sid = "m:%s" % key
         nv = self.ensure_sym(st, self.top_for(ty, sid), sid)
@@ -608,6 +617,8 @@ class Analyzer:
             if "int" in c:
                 return V(ty=ty, const=int(c["int"]))
             v = V(ty=ty)
+            if c.get("def") and ty.startswith("&") and c["def"] in (getattr(self.prog, "const_ranges", None) or {}):
+                v.ref_to = "const:" + c["def"]
             if "bytes" in c:
                 v.len = ("c", len(c["bytes"]))
             m = re.match(r"^&?(mut )?\[.*; (\d+)\]$", ty or "")
@@ -627,6 +638,12 @@ class Analyzer:
         if "(*" in key and self._unknown_deref(st, place):
             self.kill_aliased(st)
         st.kill_prefix(key)
+        if re.fullmatch(r"_\d+", key):
+            # aliases named after the old pointee of this local become unknown
+            pre = "(*%s)" % key
+            for k, ov in list(st.vals.items()):
+                if ov.ref_to is not None and (ov.ref_to == pre or ov.ref_to.startswith(pre + ".")) and k != key:
+                    st.vals[k] = V(ty=ov.ty, const=ov.const, sym=ov.sym, len=ov.len, is_mut=ov.is_mut)
         # invalidate values that referred to this key's old content via ref_to? (refs stay valid: they name the place)
         if whole_from is not None:
             st.copy_prefix(whole_from, key)
@@ -677,6 +694,10 @@ class Analyzer:
             v = self.eval_op(st, o, sid)
             if o["k"] in ("copy", "move"):
                 src = self.pkey(st, o["place"])
+                if v.ref_to is None and v.const is None and v.sym is None and (dty or "").startswith("&") and not o["place"]["p"]:
+                    # copy of a reference with an unknown target: both locals now name the same region
+                    v = V(ty=dty, ref_to="(*%s)" % src, len=v.len, is_mut=(dty or "").startswith("&mut"))
+                    st.vals[src] = v
                 self.write_place(st, place, v if v.key() != TOPV.key() else None, whole_from=src)
             else:
                 self.write_place(st, place, v)
